@@ -90,8 +90,8 @@ def angle_dms00 (x : Num) : Num :=
   let dm : Int × Int := if ms.1 ≥ 60 then (ptrunc (ofInt ms.1 / 60.0), imod ms.1 60) else (0, ms.1)
   -- degrees = degrees % 360
   let degrees : Int := imod dm.1 360
-  -- deg = sign * (de + mi / 60.0 + se / 3600.0)
-  sign * (ofInt degrees + ofInt dm.2 / 60.0 + ms.2 / 3600.0)
+  -- deg = sign * (de + mi / 60.0 + se / 3600.0);  return Angle.reduce_deg(deg)
+  reduce_deg (sign * (ofInt degrees + ofInt dm.2 / 60.0 + ms.2 / 3600.0))
 
 /-! ### evaluators of the generated data -/
 
@@ -257,11 +257,14 @@ def apparent_equatorial_pos (jde dpsi eps : Num) : PyRes (Num × Num × Num × N
 
 /-! ### nodes, perigee, illuminated fraction, bright limb -/
 
+/-- `Omega = 125.0445479 + (-1934.1362891 + (0.0020754 + (1.0/476441.0 - t/60616000.0) * t) * t) * t` -/
+def node_poly (t : Num) : Num :=
+  125.0445479 + (-1934.1362891 + (0.0020754 + (1.0 / 476441.0 - t / 60616000.0) * t) * t) * t
+
 /-- `Moon.longitude_mean_ascending_node(epoch)` (Moon.py:406) -/
 def longitude_mean_ascending_node (jde : Num) : Num :=
   let t := cent jde
-  -- Omega = 125.0445479 + (-1934.1362891 + (0.0020754 + (1.0/476441.0 - t/60616000.0) * t) * t) * t
-  let Omega : Num := 125.0445479 + (-1934.1362891 + (0.0020754 + (1.0 / 476441.0 - t / 60616000.0) * t) * t) * t
+  let Omega : Num := node_poly t
   -- Omega = Angle(Omega).to_positive()
   to_positive (reduce_deg Omega)
 
@@ -278,11 +281,13 @@ def longitude_true_ascending_node (jde : Num) : Num :=
   -- Omega += Angle(corr)
   reduce_deg (Omega + reduce_deg corr)
 
-/-- `Moon.longitude_mean_perigee(epoch)` (Moon.py:509) -/
+/-- `ppii = 83.3532465 + (4069.0137287 + (-0.01032 + (-1.0/80053.0 + t/18999000.0) * t) * t) * t` -/
+def perigee_poly (t : Num) : Num :=
+  83.3532465 + (4069.0137287 + (-0.01032 + (-1.0 / 80053.0 + t / 18999000.0) * t) * t) * t
+
+/-- `Moon.longitude_mean_perigee(epoch)` (Moon.py:509): `Angle(ppii)` -/
 def longitude_mean_perigee (jde : Num) : Num :=
-  let t := cent jde
-  -- ppii = 83.3532465 + (4069.0137287 + (-0.01032 + (-1.0/80053.0 + t/18999000.0) * t) * t) * t
-  reduce_deg (83.3532465 + (4069.0137287 + (-0.01032 + (-1.0 / 80053.0 + t / 18999000.0) * t) * t) * t)
+  reduce_deg (perigee_poly (cent jde))
 
 /-- the angle `i` (degrees) of `Moon.illuminated_fraction_disk` (Moon.py:584): a chain of
     `Angle` additions, each of which reduces its result. -/
